@@ -198,15 +198,16 @@ theorem minfo_nil (g : Graph) : MInfo g [] [] where
 
 /-! ## `module_name`, `print_scope`, `full_name` -/
 
-/-- the root scope is the root -/
-def RootOk (g : Graph) : Prop := ∃ sc : Scope, g.scopes[0]? = some sc ∧ sc.kind = .root
+/-- the root scope is the root and has no parent -/
+def RootOk (g : Graph) : Prop :=
+  ∃ sc : Scope, g.scopes[0]? = some sc ∧ sc.kind = .root ∧ sc.parent = none
 
-theorem rootOk_new : RootOk Graph.new := ⟨_, rfl, rfl⟩
+theorem rootOk_new : RootOk Graph.new := ⟨_, rfl, rfl, rfl⟩
 
 theorem rootOk_ext {g g' : Graph} (h : RootOk g) (e : Ext g g') : RootOk g' := by
-  obtain ⟨sc, h1, h2⟩ := h
-  obtain ⟨sc', e1, e2, _⟩ := e.scopes 0 sc h1
-  exact ⟨sc', e1, by rw [e2, h2]⟩
+  obtain ⟨sc, h1, h2, h3⟩ := h
+  obtain ⟨sc', e1, e2, e3⟩ := e.scopes 0 sc h1
+  exact ⟨sc', e1, by rw [e2, h2], by rw [e3, h3]⟩
 
 /-- `module_name` of the scope of module `i` is the module path -/
 theorem moduleName_spec {g : Graph} {ms : List Module} {mods : List Nat} (hi : MInfo g ms mods) :
@@ -273,7 +274,7 @@ theorem fullName_spec {g : Graph} {ms : List Module} {mods : List Nat} (hi : MIn
     rcases h3 with ⟨_, hk⟩ | ⟨_, _, _, _, _, _, hk⟩ <;> exact ⟨_, _, hk⟩
   obtain ⟨name, pm, hk⟩ := hk
   have hmn := moduleName_spec hi hp s sc name pm (s + 1) hs h1 hk (Nat.lt_succ_self s)
-  obtain ⟨rsc, hr1, hr2⟩ := hr
+  obtain ⟨rsc, hr1, hr2, _⟩ := hr
   have hs0 : s ≠ 0 := by
     intro h0
     subst h0
@@ -289,6 +290,27 @@ theorem fullName_spec {g : Graph} {ms : List Module} {mods : List Nat} (hi : MIn
   | zero => exact absurd rfl hs0
   | succ s' =>
     simp [fullName, printScope, printScopeF, h1, hmn, hr1]
+
+/-- the lookup path of a module scope: the module, then the root — never the
+    parent module -/
+theorem module_chain {g : Graph} {ms : List Module} {mods : List Nat} (hi : MInfo g ms mods)
+    (hr : RootOk g) {i : Nat} {m : Module} {s : Nat} (hm : ms[i]? = some m) (hs : mods[i]? = some s) :
+    Ancestors g s [s, 0] := by
+  obtain ⟨sc, h1, h2, _⟩ := hi.recd i m s hm hs
+  obtain ⟨rsc, hr1, _, hr3⟩ := hr
+  exact .step h1 h2 (.root hr1 hr3)
+
+theorem ancestors_wrap_old {g : Graph} (parent : Nat) (kind : SKind) {a : Nat} {l : List Nat}
+    (h : Ancestors g a l) : Ancestors (g.wrap parent kind).1 a l := by
+  induction h with
+  | root hs hp => exact .root (by rw [wrap_scopes_old parent kind (getElem?_lt hs)]; exact hs) hp
+  | step hs hp _ ih =>
+    exact .step (by rw [wrap_scopes_old parent kind (getElem?_lt hs)]; exact hs) hp ih
+
+/-- wrapping a scope under `s` puts it in front of `s`'s lookup path -/
+theorem ancestors_wrap {g : Graph} {s : Nat} {l : List Nat} (h : Ancestors g s l) (kind : SKind) :
+    Ancestors (g.wrap s kind).1 (g.wrap s kind).2 ((g.wrap s kind).2 :: l) :=
+  .step (wrap_scopes_new s kind) rfl (ancestors_wrap_old s kind h)
 
 /-! ## injectivity -/
 
